@@ -158,6 +158,10 @@ REJECT = {
     "values_setter_shape": lambda: _set_values(),
     "axis_values_setter_size": lambda: setattr(Axis(np.array(X2), "x"), "values", np.array([1, 2, 3])),
     "axes_setitem_size": lambda: DimArray(V, axes=[X2, Y3], dims=["x", "y"]).axes.__setitem__(0, Axis(np.array([1, 2, 3]), "x")),
+    # ONE label for an axis of three ("must have exactly the same length as original axis"): refused, not broadcast onto the whole axis
+    "set_axis_len1": lambda: DimArray(V, axes=[X2, Y3], dims=["x", "y"]).set_axis([9], axis="y"),
+    "set_axis_len1_copy": lambda: DimArray(V, axes=[X2, Y3], dims=["x", "y"]).set_axis(["q"], axis=1, inplace=False),
+    "ds_set_axis_len1": lambda: Dataset(v=DimArray(V, axes=[X2, Y3], dims=["x", "y"])).set_axis([9], axis="y"),
     "clean_x_setter_size": lambda: _refused_cleanly(lambda a: setattr(a, "x", ["p", "q", "r"])),
     "clean_labels_setter_size": lambda: _refused_cleanly(lambda a: setattr(a, "labels", (["p", "q", "r"], Y3))),
     "clean_set_axis_size": lambda: _refused_cleanly(lambda a: a.set_axis([0.5, 1.5, 2.5], axis="x")),
